@@ -128,7 +128,8 @@ def restrict(tree, cond, value):
     """simplify `tree` under the assumption cond == value"""
     if tree[0] != "if":
         return tree
-    if tree[1] == cond:
+    if tree[1] == cond or (hasattr(cond, "fullmatch") and
+                           cond.fullmatch(str(tree[1]))):
         return restrict(tree[2] if value else tree[3], cond, value)
     return mkif(tree[1], restrict(tree[2], cond, value),
                 restrict(tree[3], cond, value))
@@ -278,11 +279,18 @@ class Summariser:
             # classification loop: one term per class of shape (reviewed:
             # eval_shapes holds the quadrature shapes that have a rule in
             # qr_rules, plus at most one evaluator shape)
-            quad = restrict(body, "shape in const.VALID_QUADRATURE_SHAPES",
-                            True)
-            evalb = restrict(restrict(
-                body, "shape in const.VALID_QUADRATURE_SHAPES", False),
-                "shape in const.VALID_EVALUATOR_SHAPES", True)
+            # the two spellings of each class test used in the repository
+            quads = (re.compile(r"shape in \S*VALID_QUADRATURE_SHAPES"),
+                     re.compile(r"shape in self\._kern\.qr_rules"))
+            evals = (re.compile(r"shape in \S*VALID_EVALUATOR_SHAPES"),
+                     re.compile(r"shape == 'gh_evaluator'"))
+            quad = evalb = body
+            for test in quads:
+                quad = restrict(quad, test, True)
+                evalb = restrict(evalb, test, False)
+            for test in evals:
+                quad = restrict(quad, test, False)
+                evalb = restrict(evalb, test, True)
             return add(mul(sym("QR"), quad),
                        under("EVAL", evalb, num(0)))
         return mul(sym(f"len({txt})"), body)
@@ -348,8 +356,68 @@ def generate_hooks(idx):
     return base, gen, hooks
 
 
+def check_shape_order(idx, run):
+    """A kernel with several gh_shape entries gets one (differential) basis
+    array per entry and function space.  Every implementation of the basis /
+    diff_basis hooks adds them in the order of the gh_shape metadata, i.e.
+    inside a loop over self._kern.eval_shapes: an implementation that walks
+    another collection first (all quadratures, then the evaluator) passes
+    arrays of different rank at the positions where the stub declares
+    them."""
+    sides = (CALL, STUB,
+             "psyclone.domain.lfric.kernel_interface.KernelInterface")
+    count = 0
+    for side in sides:
+        cls = idx.get_class(side)
+        for hook in ("basis", "diff_basis"):
+            found = idx.find_method(cls, hook)
+            if found is None:
+                raise AnalysisError(f"{cls.name}.{hook} not found")
+            owner, func = found
+            funcs = [(owner, func)]
+            # one level of delegation (KernelInterface._create_basis)
+            for call_ in ast.walk(func):
+                if isinstance(call_, ast.Call) and \
+                        isinstance(call_.func, ast.Attribute) and \
+                        ast.unparse(call_.func.value) == "self" and \
+                        call_.func.attr.startswith("_"):
+                    sub = idx.find_method(cls, call_.func.attr)
+                    if sub is not None:
+                        funcs.append(sub)
+
+            def adds(node):
+                return isinstance(node, ast.Call) and \
+                    isinstance(node.func, ast.Attribute) and \
+                    node.func.attr == "append" and \
+                    ast.unparse(node.func.value) in ("self",
+                                                     "self._arglist")
+            for fowner, fnode in funcs:
+                inside = set()
+                for loop in ast.walk(fnode):
+                    if isinstance(loop, ast.For) and ast.unparse(
+                            loop.iter) == "self._kern.eval_shapes":
+                        inside |= {id(n) for n in ast.walk(loop)}
+                for node in ast.walk(fnode):
+                    if not adds(node):
+                        continue
+                    count += 1
+                    run.check(
+                        "C21.R5", id(node) in inside,
+                        f"{fowner.name}.{fnode.name} [{hook}]",
+                        "basis arrays are added in gh_shape order",
+                        f"{fowner.name}.{fnode.name} adds "
+                        f"`{ast.unparse(node)[:50]}` outside a loop over "
+                        f"self._kern.eval_shapes: with gh_shape = "
+                        f"(/gh_evaluator, gh_quadrature_*/) the caller "
+                        f"passes the quadrature arrays (rank 4) where the "
+                        f"stub declares the evaluator arrays (rank 3)",
+                        loc(fowner.module, node))
+    run.floor("basis / diff_basis additions", count, 8)
+
+
 def check(idx, run):
     run.explanation = __doc__
+    check_shape_order(idx, run)
     base, gen, hooks = generate_hooks(idx)
     call = idx.get_class(CALL)
     stub = idx.get_class(STUB)
